@@ -16,6 +16,7 @@ import (
 )
 
 func runSyncScenario(t testing.TB, rec *vRec, sc *prodScenario) {
+	rec = rec.Sub() // scoped to this scenario: stragglers of an abandoned run cannot pollute later traces
 	cfgv := sc.Cfg
 	if cfgv.NBrokers == 0 {
 		cfgv.NBrokers = 1
